@@ -2,7 +2,7 @@
    Only statements here; proofs are `exact <lemma>` from Proofs/{Bucket,StoreLimit,SilenceLimits,Semaphore}Proofs.v.
    Models: Model/Bucket.v (limit.Bucket with the container/heap array), Model/StoreLimit.v (mem.Put / store.Set /
    store.GC), Model/SilenceLimits.v (the limit checks of Silences.Set), Model/Semaphore.v (api limitHandler).
-   The models are those of the tree AFTER the repair of Bucket.IsStale (fix commit 8e618c1); the rule of the pinned
+   The models are those of the tree AFTER the repair of Bucket.IsStale (fix commit f84fa83); the rule of the pinned
    commit is kept as `is_stale_last_slot` for the witness at the end. *)
 From AM Require Import Base.Prelude Model.Bucket Model.StoreLimit Model.SilenceLimits Model.Semaphore.
 From AM Require Import Proofs.BucketProofs Proofs.StoreLimitProofs Proofs.SilenceLimitsProofs Proofs.SemaphoreProofs.
